@@ -15,6 +15,9 @@ collection must not survive it.
 Modules may compose their ``__all__`` from other modules' ``__all__`` (every spelling the extractor
 parses); the surface model computes the effective ``__all__`` the way Python does (validated
 against CPython imports of the generated packages while building).
+Containers come in boundary shapes too (classes with an empty body or private members only, modules
+that only import, packages with an empty ``__init__``) and are then the only public route to an
+edited object.
 Oracle: a *public-surface model* computed from the generator's structure (never from
 ``is_public``) and the packages the session loads gives the public paths of every object;
 incompatible edits on an object with >= 1 public path must yield a breakage of the expected kind on
@@ -48,7 +51,10 @@ RULE = ("structured package pk (modules pk, pk.core, pk._impl, pk.sub, pk.sub.mo
         "referred to as an imported name (absolute / relative import), `mod.__all__` (from-import or import-as of the module) or "
         "`pk.mod.__all__` - from a private (pk._impl) and a public (pk.core) source, chained or not, each consumed by 1-3 modules among "
         "the root, existing submodules and new public / private modules sorting before and after the sources, with the listed objects "
-        "brought in by wildcard or one by one; optional "
+        "brought in by wildcard or one by one; containers of boundary shape - classes with an empty body (`pass`, `...`, docstring "
+        "only) or with private members only that inherit from a private base in a private module (re-exported or not), a class of "
+        "the package or of a sibling package, a module that only imports (with / without __all__), packages with an empty "
+        "__init__ (pk.sub, the sibling package, the root) - as the only public route to an edited object; optional "
         "dangling or cyclic re-export injected in both versions x loading session applied to both versions: the way `griffe check` "
         "loads (load pk, resolve aliases with external=None, which pulls in _pk afterwards when an exported alias or a wildcard leads "
         "there) or a loader session over a drawn subset/order of the packages with consumer reads of the whole tree and alias "
@@ -74,7 +80,9 @@ REQUIRED_COUNTERS = ["pairs_diffed", "identical_pairs_silent", "compatible_scrip
                      "edits_behind_wildcard_import_from_sibling_reported", "cli_cases_with_sibling_package",
                      "tree_reads_between_loading_steps", "edits_public_only_through_composed_all_reported",
                      "composed_all_in_non_root_module_edits_reported", "composed_all_from_shared_source_edits_reported",
-                     "cli_cases_with_composed_all"]
+                     "cli_cases_with_composed_all", "edits_public_only_through_empty_body_class_reported",
+                     "edits_public_only_through_class_with_private_members_only_reported",
+                     "edits_public_only_through_import_only_module_reported", "cli_cases_with_empty_body_class", "pairs_with_empty_init"]
 EXHAUSTIVE = {"quick": False, "thorough": False}
 ASSUMPTIONS = ["attribute values and parameter lists are simple literals so that C03/C10 findings cannot surface here",
                "a module with a wildcard import declares a non-empty __all__ (whether names only a wildcard brings in are public without "
@@ -129,10 +137,12 @@ def import_reaches(mods: dict, start: str, goal: str) -> bool:
     return False
 
 
-def gen_model(rng: random.Random, siblings: bool | None = None, compose: bool | None = None) -> dict:  # noqa: C901, PLR0912, PLR0915
+def gen_model(rng: random.Random, siblings: bool | None = None, compose: bool | None = None, shapes: bool | None = None) -> dict:  # noqa: C901, PLR0912, PLR0915
     """``siblings``: None = drawn, True = the private sibling top-level package is present and linked by an exported
     re-export, False = single-package model. ``compose``: None = drawn, True = some modules build their ``__all__`` from
-    other modules' ``__all__``."""
+    other modules' ``__all__``. ``shapes``: None = drawn, True = boundary shapes of containers occur: classes with an empty
+    body (``pass``, ``...``, docstring only) or with private members only that offer what they inherit, a module that only
+    imports, packages with an empty ``__init__``."""
     mods: dict[str, dict] = {}
     counter = [0]
 
@@ -140,10 +150,16 @@ def gen_model(rng: random.Random, siblings: bool | None = None, compose: bool | 
         counter[0] += 1
         return f"{prefix}{counter[0]}"
 
-    def gen_class(name: str, bases: list[str]) -> dict:
+    shapes_on = (rng.random() < 0.6) if shapes is None else shapes
+
+    def gen_class(name: str, bases: list[str], plain: bool = False) -> dict:
         members = []
+        shape = rng.random() if shapes_on and not plain else 1.0
+        if bases and shape < 0.3:
+            # declares nothing itself: its whole interface is inherited
+            return new_obj(name, "class", bases=list(bases), members=[], body=rng.choice(["pass", "ellipsis", "doc"]))
         for _ in range(rng.randint(1, 3)):
-            mname = fresh(rng.choice(["m", "m", "_pm"]))
+            mname = fresh(rng.choice(["m", "m", "_pm"]) if not (bases and shape < 0.42) else "_pm")  # or: private members only
             if rng.random() < 0.7:
                 members.append(new_obj(mname, "func", params=[("self", None), ("x", None)][: rng.randint(1, 2)]))
             else:
@@ -172,6 +188,14 @@ def gen_model(rng: random.Random, siblings: bool | None = None, compose: bool | 
     sub = gen_class(fresh("Sub"), [base["name"]])
     core += [base, sub]
     impl = gen_objs(rng.randint(2, 4), 0.2)
+    pbase = None
+    if shapes_on:
+        # a base class in the private module (re-exported by the root or not, as the draw below decides) for an empty-bodied
+        # public class elsewhere
+        pbase = gen_class(fresh(rng.choice(["PBase", "_PBase"])), [], plain=True)
+        if not any(not m["name"].startswith("_") for m in pbase["members"]):
+            pbase["members"].append(new_obj(fresh("m"), rng.choice(["func", "attr"]), params=[("self", None)]))
+        impl.append(pbase)
     mods["pk.core"] = {"objs": core, "imports": [], "all": None}
     mods["pk._impl"] = {"objs": impl, "imports": [], "all": None}
     if rng.random() < 0.5:
@@ -191,6 +215,19 @@ def gen_model(rng: random.Random, siblings: bool | None = None, compose: bool | 
     submod_objs = gen_objs(rng.randint(1, 2), 0.2)
     submod_objs.append(gen_class(fresh("D"), [target["name"]]))
     mods["pk.sub.mod"] = {"objs": submod_objs, "imports": [("pk.core", target["name"], None)], "all": None}
+    if pbase is not None:
+        host = rng.choice(["pk", "pk.core", "pk.sub", "pk.sub.mod"])
+        asname = rng.choice([None, None, pbase["name"].lstrip("_") + "_b"])
+        mods[host]["imports"].append(("pk._impl", pbase["name"], asname))
+        empty = new_obj(fresh("E"), "class", bases=[asname or pbase["name"]], members=[], body=rng.choice(["pass", "ellipsis", "doc"]))
+        mods[host]["objs"].append(empty)
+        if mods[host]["all"] is not None and rng.random() < 0.9:
+            mods[host]["all"].append(empty["name"])
+        if rng.random() < 0.5:
+            # a module that only imports: with an __all__ it is a public route to what it imports, without it is none
+            picks = rng.sample(impl, rng.randint(1, min(2, len(impl))))
+            shim_imports = [("pk._impl", o["name"], rng.choice([None, o["name"].lstrip("_") + "_sh"])) for o in picks]
+            mods["pk.shim"] = {"objs": [], "imports": shim_imports, "all": [i[2] or i[1] for i in shim_imports] if rng.random() < 0.75 else None}
 
     # sibling top-level packages: a private one (_pk next to pk: the ast/_ast, griffe/_griffe layout; the only kind of
     # package `griffe check` loads on its own, and only afterwards, while resolving an exported alias into it) and a
@@ -204,13 +241,14 @@ def gen_model(rng: random.Random, siblings: bool | None = None, compose: bool | 
         if rng.random() < 0.4:
             sub_objs.append(gen_class(fresh(cprefix + "Mid"), [sbase["name"]]))
         mods[f"{topname}.{submod}"] = {"objs": sub_objs, "imports": [], "all": None}
-        top_objs = gen_objs(rng.randint(1, 2), 0.2)
+        empty_init = shapes_on and rng.random() < 0.2  # the sibling package's __init__ is empty: everything lives in its submodule
+        top_objs = [] if empty_init else gen_objs(rng.randint(1, 2), 0.2)
         top_imports = []
-        hop = rng.random() < 0.5  # the package's __init__ re-exports the classes of its submodule: importable through that hop
+        hop = not empty_init and rng.random() < 0.5  # the package's __init__ re-exports the classes of its submodule: importable through that hop
         if hop:
             top_imports = [(f"{topname}.{submod}", o["name"], None) for o in sub_objs if o["kind"] == "class"]
         top_all = None
-        if rng.random() < 0.4:
+        if rng.random() < 0.4 and not empty_init:
             top_all = [o["name"] for o in top_objs if rng.random() < 0.8] + [i[1] for i in top_imports if rng.random() < 0.8]
         mods[topname] = {"objs": top_objs, "imports": top_imports, "all": top_all}
         # `from <sibling> import *` as the first line of pk/__init__ (at most one wildcard import there)
@@ -238,7 +276,7 @@ def gen_model(rng: random.Random, siblings: bool | None = None, compose: bool | 
             if host == "pk.core" and rng.random() < 0.3:
                 bases.append(base["name"])  # multiple inheritance: a base of the package itself next to the sibling one
             kid = gen_class(fresh("K"), bases)
-            if rng.random() < 0.3 and sc["members"]:
+            if rng.random() < 0.3 and sc["members"] and kid["members"]:
                 over = copy.deepcopy(rng.choice(sc["members"]))  # overrides an inherited member: the base's one is shadowed
                 kid["members"].append(over)
             hm["objs"].append(kid)
@@ -312,7 +350,8 @@ def gen_model(rng: random.Random, siblings: bool | None = None, compose: bool | 
             if rng.random() < 0.6:
                 cm.setdefault("wild", []).append(src)
             else:
-                have = {o["name"] for o in cm["objs"]} | {i[2] or i[1] for i in imports_of(model, cons)}
+                # (also names a wildcard import from elsewhere already provides: that import may be dropped by an edit)
+                have = {o["name"] for o in cm["objs"]} | {i[2] or i[1] for i in cm["imports"]}
                 cm["imports"].extend((src, n, None) for n in eff_all(model, src) or [] if n not in have)
 
         if len(sources) == 2 and rng.random() < 0.3:
@@ -331,6 +370,11 @@ def gen_model(rng: random.Random, siblings: bool | None = None, compose: bool | 
                 if entry.get("hop") and import_reaches(mods, entry["hop"], cons):
                     entry["ref"] = "attr_from"
                     del entry["hop"]
+    if (shapes_on and rng.random() < 0.12 and tops_of({"mods": mods}) == ["pk"] and not mods["pk"].get("wild") and not mods["pk"].get("compose")
+            and not any(c.get("hop") == "pk" for m in mods.values() for c in m.get("compose", []))):
+        # the root __init__ is empty: every public route starts at a submodule
+        mods["pk"] = {"objs": [], "imports": [], "all": None}
+        extra = None
     return {"mods": mods, "extra": extra}
 
 
@@ -341,7 +385,8 @@ def render_obj(o: dict, indent: str = "") -> str:
     if o["kind"] == "attr":
         return f"{indent}{o['name']} = {o['value']}\n"
     head = f"{indent}class {o['name']}" + (f"({', '.join(o['bases'])})" if o["bases"] else "") + ":\n"
-    body = "".join(render_obj(m, indent + "    ") for m in o["members"]) or f"{indent}    pass\n"
+    empty = {"pass": "pass", "ellipsis": "...", "doc": '"""Everything is inherited."""'}[o.get("body") or "pass"]
+    body = "".join(render_obj(m, indent + "    ") for m in o["members"]) or f"{indent}    {empty}\n"
     return head + body
 
 
@@ -514,6 +559,30 @@ def composed_paths(model: dict) -> list[list]:
             for n in eff_all(model, c["src"]) or []:
                 if n not in m["all"]:
                     out.append([f"{mod}.{n}", mod == "pk", len(consumers_of(model, c["src"])) > 1])
+    return out
+
+
+def boundary_shapes(model: dict, loaded: set[str] | None = None) -> dict[str, list]:
+    """Public paths of containers of boundary shape: classes that declare nothing / only private members but have bases,
+    modules that only import, packages whose ``__init__`` is empty; plus the spellings of the empty class bodies."""
+    paths = public_paths(model, loaded)
+    out: dict[str, list] = {"empty_class": [], "private_only_class": [], "import_only_module": [], "empty_init": [], "bodies": []}
+    pkgs = {m for m in model["mods"] if any(x.startswith(m + ".") for x in model["mods"])}
+    for mod, m in model["mods"].items():
+        for o in m["objs"]:
+            if o["kind"] == "class" and o["bases"]:
+                ps = sorted(paths.get(f"{mod}.{o['name']}", ()))
+                if not o["members"]:
+                    out["empty_class"] += ps
+                    if ps:
+                        out["bodies"].append(o.get("body") or "pass")
+                elif all(x["name"].startswith("_") for x in o["members"]):
+                    out["private_only_class"] += ps
+        bare = not m["objs"] and not m.get("wild") and not m.get("compose")
+        if bare and m["imports"] and module_public(model, mod):
+            out["import_only_module"].append(mod)
+        if bare and not m["imports"] and mod in pkgs:
+            out["empty_init"].append(mod)
     return out
 
 
@@ -1044,6 +1113,9 @@ def judge(rec, case: dict, rows: list[dict], info: dict) -> tuple | None:  # noq
             rec.count("pairs_with_wildcard_import_from_loaded_sibling")
         if case.get("composed_paths"):
             rec.count("pairs_with_composed_all")
+        for key, val in (case.get("boundary") or {}).items():
+            if val and key != "bodies":
+                rec.count(f"pairs_with_{key}")
     by_obj: dict[tuple[str, str], list[dict]] = {}
     for d in demanded:
         by_obj.setdefault((d["canonical"], d["kind"]), []).append(d)
@@ -1075,6 +1147,15 @@ def judge(rec, case: dict, rows: list[dict], info: dict) -> tuple | None:  # noq
                 rec.count("composed_all_in_non_root_module_edits_reported")
             if any(c[2] for cs in comp for c in cs):
                 rec.count("composed_all_from_shared_source_edits_reported")
+        for key, name in (("empty_class", "edits_public_only_through_empty_body_class_reported"),
+                          ("private_only_class", "edits_public_only_through_class_with_private_members_only_reported"),
+                          ("import_only_module", "edits_public_only_through_import_only_module_reported")):
+            prefixes = (case.get("boundary") or {}).get(key) or ()
+            if hit and all(any(d["path"].startswith(w + ".") for w in prefixes) for d in ds):
+                rec.count(name)
+                if key == "empty_class":
+                    for style in case["boundary"]["bodies"]:
+                        rec.add_to_set("empty_class_bodies_seen_in_such_pairs", style)
         if not hit:
             return (f"public object {canonical} ({kind}) changed on public path(s) {sorted(d['path'] for d in ds)} but no such breakage is reported",
                     rows, ds)
@@ -1145,6 +1226,9 @@ def run_case(rec, old_model: dict, script: list[str], rng: random.Random, with_c
     composed = composed_paths(old_model)
     if focus == "composed":
         focus = {c[0] for c in composed}  # type: ignore[assignment]
+    elif focus == "boundary":
+        b = boundary_shapes(old_model)
+        focus = set(b["empty_class"] + b["private_only_class"] + b["import_only_module"])  # type: ignore[assignment]
     for kind in script:
         e = apply_edit(rng, old_model, new_model, kind, paths_old, focus=focus)
         if e:
@@ -1165,7 +1249,7 @@ def run_case(rec, old_model: dict, script: list[str], rng: random.Random, with_c
     case = {"old": old_files, "new": new_files, "expectations": expectations, "session": session, "loaded": loaded,
             "old_surface": surface(old_model, loaded), "new_surface": surface(new_model, loaded),
             "old_full": surface(old_model), "new_full": surface(new_model), "wild_paths": wildcard_only_paths(old_model, set(loaded)),
-            "composed_paths": composed}
+            "composed_paths": composed, "boundary": boundary_shapes(old_model, set(loaded))}
     judge_case(rec, case, with_cli)
 
 
@@ -1196,6 +1280,8 @@ def judge_case(rec, case: dict, with_cli: bool) -> None:  # noqa: ANN001, C901
                     rec.count("cli_cases_with_sibling_package")
                 if case.get("composed_paths"):
                     rec.count("cli_cases_with_composed_all")
+                if (case.get("boundary") or {}).get("empty_class"):
+                    rec.count("cli_cases_with_empty_body_class")
                 # against the reference model: non-zero when a difference is demanded, zero when none is even allowed
                 wants = {1 if demanded else 0, 1 if allowed else 0}
                 cres = None
@@ -1224,18 +1310,20 @@ def judge_case(rec, case: dict, with_cli: bool) -> None:  # noqa: ANN001, C901
 
 def shards(tier: str, seed: int) -> list[dict]:
     n = 110 if tier == "quick" else 900
-    return [{"count": n, "cli": 4 if tier == "quick" else 12} for _ in range(16)]
+    return [{"count": n, "cli": 5 if tier == "quick" else 15} for _ in range(16)]
 
 
 def run_shard(spec: dict, rec) -> None:  # noqa: ANN001
     rng = random.Random(spec["seed"])
     for i in range(spec["count"]):
         with_cli = i < spec["cli"]
-        # of four CLI cases, two have the private sibling package linked by an exported re-export (what makes `griffe check`
+        # of five CLI cases, two have the private sibling package linked by an exported re-export (what makes `griffe check`
         # pull it in) and edit an object pk only has from there; one has composed __all__ lists and edits an object that
-        # only such a list makes public
-        force = ("sibling" if i % 4 < 2 else "composed" if i % 4 == 2 else None) if with_cli else None
-        model = gen_model(rng, siblings=True if force == "sibling" else None, compose=True if force == "composed" else None)
+        # only such a list makes public; one has containers of boundary shape (empty class bodies, ...) and edits an object
+        # that is public only through one of them
+        force = (["sibling", "sibling", "composed", "boundary", None][i % 5]) if with_cli else None
+        model = gen_model(rng, siblings=True if force == "sibling" else None, compose=True if force == "composed" else None,
+                          shapes=True if force == "boundary" else None)
         r = rng.random()
         if r < 0.12 and not force:
             script: list[str] = []
@@ -1248,7 +1336,7 @@ def run_shard(spec: dict, rec) -> None:  # noqa: ANN001
             inc = [k for k in script if k in INCOMPAT][:1]
             script = [k for k in script if k in COMPAT] + inc
         r = rng.random()
-        run_case(rec, model, script, rng, with_cli=with_cli, focus=force or ("sibling" if r < 0.2 else "composed" if r < 0.5 else None))
+        run_case(rec, model, script, rng, with_cli=with_cli, focus=force or ("sibling" if r < 0.2 else "composed" if r < 0.45 else "boundary" if r < 0.7 else None))
 
 
 def legacy_case(inp: dict) -> dict:
